@@ -232,12 +232,24 @@ def build(S, tier):
                     S.prove(f"crash:Logger.__call__[{mode}]:after[{'+'.join(done)}]#completed_lines_intact@{i}", o[2][:len(d1)] == d1, kind="ensures", why=f"durable {o[2]}")
 
     # ------------------------------------------------------------------ TrajectoryObserver
-    for mode in ("a", "w"):
+    class EmptyAtoms(Ext):
+        """an Atoms object holding no atom: len 0, hence falsy (grand-canonical runs pass through the empty box)"""
+        type_name = "Atoms"
+
+        def py_len(self, I):
+            return 0
+
+        def py_truth(self, I):
+            return False
+
+    for mode in ("a", "w", "a, empty atoms", "w, empty atoms"):
         def run_traj(I, mode=mode):
             log = []
             install(I, log)
+            empty = "empty" in mode
+            mode = mode[0]
             f = FileModel(mode, initial=[Token("older-frames")] if mode == "a" else [])
-            ob = I.call(I.get_class(IO + "trajectory.TrajectoryObserver"), [Token("atoms"), f], {"mode": mode})
+            ob = I.call(I.get_class(IO + "trajectory.TrajectoryObserver"), [EmptyAtoms() if empty else Token("atoms"), f], {"mode": mode})
             I.call(ob, [], {})
             n1 = len(f.ops)
             I.call(ob, [], {})
